@@ -175,3 +175,46 @@ def sign_tests(ix, conds):
                 elif nm == "eq":
                     out.append(("is_zero", l, o2))
     return out
+
+
+def funding_shortcut_instances(ctx, rule):
+    """helpers that compute a signed figure from a Position and answer zero for an empty one (anchored by behaviour: engine
+    functions returning Integer, taking a Position and no Deps, with a zero answer and a formula answer): zero only where
+    size == 0 is established, the formula wherever it is not.  (Blind sweep: the flipped test charged / credited nobody.)"""
+    from ..norm import N
+    ix, w = ctx.ix, ctx.world
+    n_inst = 0
+    for hf in sorted(w.crate_fns("margined_engine"), key=lambda f: f.pretty):
+        if hf.derived or "::_::" in hf.pretty or hf.kind == "Closure" or not hf.locals[0]["ty"].endswith("Integer"):
+            continue
+        if not any("Position" in hf.locals[i + 1]["ty"] for i in range(hf.arg_count)) or any("Deps" in hf.locals[i + 1]["ty"] for i in range(hf.arg_count)):
+            continue
+        hp = [sym.param(hf.key, i, hf.param_name(i)) for i in range(hf.arg_count) if "Position" in hf.locals[i + 1]["ty"]]
+        try:
+            hps = ix.ev.paths(hf)
+        except Exception:
+            continue
+        hbad = None
+        n_formula = n_zero = 0
+        psz = ix.inline(sym.field(hp[0], "size"))
+        for hpth in hps:
+            if hpth.kind() not in ("ok", "value"):
+                continue
+            rn = N(ix, hpth.ret)
+            size_zero = None
+            for (k9, x9, o9) in sign_tests(ix, hpth.conds):
+                if k9 == "is_zero" and ix.inline(x9) == psz:
+                    size_zero = o9
+            if rn in (("pos", ("int", 0)), ("int", 0)):
+                n_zero += 1
+                if size_zero is not True:
+                    hbad = hbad or "answers zero on a path where the position's size is not known to be zero"
+            else:
+                n_formula += 1
+                if size_zero is True:
+                    hbad = hbad or "computes its figure only for a position whose size IS zero"
+        if n_zero:
+            n_inst += 1
+            ctx.inst(rule, "shortcut-only-for-empty:%s" % short_fn(hf), hbad is None and n_formula > 0, hf.where(),
+                     hbad or "%d zero answers (size == 0 established), %d formula answers" % (n_zero, n_formula))
+    return n_inst
